@@ -48,7 +48,10 @@ def fixed_target(rnd, label):
     L.append("begin")
     if rnd.random() < 0.4:
         L.append("candl -1 -1 classic 0" if fam in ("localp", "wavelet") else "cand level 0 0 0")
-    L.append("loadtarget 2 %d %d %d" % (target, rnd.randint(1, 10 ** 6), rnd.choice([1, 1, 1, 2, 3, 50])))
+    # sometimes only a part first, and candidate requests between the deliveries
+    if rnd.random() < 0.3:
+        L.append("loadtarget 2 %d %d %d %d %d" % (target, rnd.randint(1, 10 ** 6), rnd.choice([1, 1, 2, 3]), rnd.randint(1, 8), rnd.choice([0, 1, 2])))
+    L.append("loadtarget 2 %d %d %d 0 %d" % (target, rnd.randint(1, 10 ** 6), rnd.choice([1, 1, 1, 2, 3, 50]), rnd.choice([0, 0, 1, 2, 3])))
     L.append("finish")
     return "\n".join(L) + "\n"
 
